@@ -159,6 +159,17 @@ def run(ck):
     vf = getfn(ck, "sc", W, W + "::validate::validate")
     if not rc:
         return
+    # a called function's frame starts out zeroed (locals are zero-initialised by the specification, and the parameters are a
+    # prefix of the same frame): every push of a function frame is dominated by a growth of the register stack through
+    # Vec::resize with a zeroed fill value - growing it with reserve + set_len leaves stale registers of returned calls in place
+    pushes = [(bi, t) for (bi, t) in rc.calls(r"Vec::<T, A>::push$") if any("FunctionState" in g_ for g_ in (t["f"].get("gargs") or []))]
+    grows = [(bi, t) for (bi, t) in rc.calls(r"Vec::<T, A>::resize$") if any("StackValue" in g_ for g_ in (t["f"].get("gargs") or []))
+             and len(t["args"]) > 2 and has_call_origin(rc.origins(t["args"][2]), r"mem::zeroed$")]
+    arms_ok = all(any(rc.dominates(gb, pb) and not any(rc.dominates(gb, pb2) for (pb2, _) in pushes if pb2 != pb) for (gb, _) in grows) for (pb, _) in pushes)
+    ck.ob("DEFUSE", rc.path, "callee-frame-zero-initialised", len(pushes) >= 2 and arms_ok,
+          "%d frame pushes, each dominated by its own resize(.., zeroed) of the register stack" % len(pushes) if len(pushes) >= 2 and arms_ok else
+          "a function frame is pushed without a zero-filling resize of the register stack before it (%d pushes, %d zero-filling resizes): locals of the callee can start with values left behind by an earlier call" % (len(pushes), len(grows)),
+          rc.loc(pushes[0][0]) if pushes else rc.loc())
     hsw = enum_switch(hf, 90)
     rsw = enum_switch(rc, 90)
     if not ck.anchor(hsw is not None and rsw is not None, "TAB", "dispatch", "opcode dispatch in compiler and interpreter"):
